@@ -218,6 +218,11 @@ SIG = {
                            [('hashlib_sha256', 'Bytes → Bytes'), ('OPS', 'List (String × Bytes)'), ('self_key_bytes', 'Bytes'),
                             ('pubkey_bytes', 'Bytes'), ('tx_digest', 'Bytes'), ('sighash', 'Int'), ('scripts', 'Py.PyScripts'),
                             ('tweak', 'Bool')], 'Bytes'),
+    # segwit address objects: bech32.py's decode / encode (translated above) under the configured network's prefix (a parameter)
+    'segwit_address_to_hash': ('keys.py', 'SegwitAddress._address_to_hash',
+                               [('segwit_hrp', 'List Char'), ('self_segwit_num_version', 'Int'), ('address', 'List Char')], 'Bytes'),
+    'segwit_to_string': ('keys.py', 'SegwitAddress.to_string',
+                         [('segwit_hrp', 'List Char'), ('self_segwit_num_version', 'Int'), ('self_witness_program', 'Bytes')], 'Option (List Char)'),
     # addresses derived from a public key: the hash160 check (a real string: len, int(., 16) under try/except), the constructor called
     # with hash160 only (what self.hash160 is set to), PublicKey.get_address (the stored hex string of the P2PKH address object)
     'is_hash160_valid': ('keys.py', 'Address._is_hash160_valid', [('hash160', 'List Char')], 'Bool'),
@@ -273,7 +278,9 @@ STRFUNS = {'bech32_encode': {'combined': 'List Int'},
            'segwit_decode': {'hrpgot': 'Option (List Char)', 'data': 'Option (List Int)', 'spec': 'Option Int', 'decoded': 'Option (List Int)'},
            'segwit_encode': {'spec': 'Int', 'ret': 'List Char'},
            'pubkey_from_hex': {'first_byte_in_hex': 'List Char', 'y_values': 'List Int'},
-           'is_hash160_valid': {}, 'address_init_hash160': {}, 'pubkey_get_address': {'addr_string_hex': 'List Char'}}
+           'is_hash160_valid': {}, 'address_init_hash160': {}, 'pubkey_get_address': {'addr_string_hex': 'List Char'},
+           'segwit_address_to_hash': {'witness_version': 'Option Int', 'witness_int_array': 'Option (List Int)'},
+           'segwit_to_string': {'witness_int_array': 'List Int'}}
 STR_DEFAULT = {'Int': '(0 : Int)', 'List Char': '([] : List Char)', 'List Int': '([] : List Int)'}
 # callees by Python name inside bech32.py: (generated name, returns an Option?)
 STR_CALLS = {'bech32_create_checksum': ('bech32_create_checksum', False), 'bech32_verify_checksum': ('bech32_verify_checksum', True),
@@ -523,6 +530,13 @@ class Tr:
         return out
 
     def e_str(s, n):
+        if (isinstance(n, ast.Subscript) and isinstance(n.value, ast.Name) and n.value.id == 'NETWORK_SEGWIT_PREFIXES'
+                and isinstance(n.slice, ast.Call) and getattr(n.slice.func, 'id', '') == 'get_network' and not n.slice.args
+                and 'segwit_hrp' in s.params):
+            return 'segwit_hrp'          # the configured network's prefix: a parameter
+        if (isinstance(n, ast.Attribute) and isinstance(n.value, ast.Name) and n.value.id == 'self' and 'self_' + n.attr in s.params
+                and s.name in ('segwit_address_to_hash', 'segwit_to_string')):
+            return 'self_' + n.attr
         if isinstance(n, ast.Constant) and isinstance(n.value, str):
             return f'({lean_str(n.value)}.toList : List Char)'
         if isinstance(n, ast.Name) and n.id in s.optvars:
@@ -544,6 +558,8 @@ class Tr:
                 return s.eff(f'Py.unwrap {t}') if opt else t
             if f == 'len' and len(a) == 1 and s.str_type(a[0]) in ('chars', 'ints', 'opt'):
                 return f'((List.length {s.e(a[0])} : Nat) : Int)'
+            if (f == 'bytes' and len(a) == 1 and not n.keywords and s.name == 'segwit_address_to_hash' and s.str_type(a[0]) in ('ints', 'opt')):
+                return s.eff(f'Py.bytesOfInts {s.e(a[0])}')          # bytes(list of ints): ValueError outside 0..255
             if (f == '_is_hash160_valid' and len(a) == 1 and not n.keywords and s.name == 'address_init_hash160'
                     and s.str_type(a[0]) == 'chars'):
                 return s.eff(f'is_hash160_valid {s.e(a[0])}')        # (self.… inside __init__ was rewritten to a plain name)
@@ -563,6 +579,16 @@ class Tr:
                 return f'(sqrt_mod {s.e(a[0])} {s.e(a[1])})'           # all_roots=True: the sorted list of all roots
         if isinstance(n, ast.Call) and isinstance(n.func, ast.Attribute):
             f = n.func
+            def is_b32(fn, nm):
+                return (isinstance(fn, ast.Attribute) and fn.attr == nm and isinstance(fn.value, ast.Attribute) and fn.value.attr == 'bech32'
+                        and isinstance(fn.value.value, ast.Name) and fn.value.value.id == 'bitcoinutils')
+            if s.name == 'segwit_address_to_hash' and is_b32(f, 'decode') and len(n.args) == 2 and not n.keywords:
+                return s.eff(f'segwit_decode {s.e(n.args[0])} {s.e(n.args[1])}')
+            if s.name == 'segwit_to_string' and is_b32(f, 'encode') and len(n.args) == 3 and not n.keywords:
+                return s.eff(f'segwit_encode {s.e(n.args[0])} {s.e(n.args[1])} {s.e(n.args[2])}')
+            if (s.name == 'segwit_to_string' and f.attr == 'tolist' and not n.args and not n.keywords and isinstance(f.value, ast.Call)
+                    and getattr(f.value.func, 'id', '') == 'memoryview' and len(f.value.args) == 1 and s.isbytes(f.value.args[0])):
+                return f'(Py.intsOfBytes {s.e(f.value.args[0])})'          # memoryview(b).tolist(): the bytes as ints
             if (f.attr == '_is_hash160_valid' and isinstance(f.value, ast.Name) and f.value.id == 'self' and len(n.args) == 1 and not n.keywords
                     and s.name == 'address_init_hash160' and s.str_type(n.args[0]) == 'chars'):
                 return s.eff(f'is_hash160_valid {s.e(n.args[0])}')
@@ -1539,6 +1565,9 @@ class Tr:
                 kw_ = '' if nm in s.declared else 'let mut '
                 s.declared.add(nm); s.hexvars.add(nm); s.bytesvars.add(nm)
                 return s.flush(ind) + [f'{ind}{kw_}{nm} := {hb}']
+        if s.name == 'segwit_to_string' and isinstance(st, ast.Return) and isinstance(st.value, ast.Call):
+            v = s.e(st.value)          # bech32.encode returns the address or None: the Option is handed on as it is
+            return s.flush(ind) + [f'{ind}return {v}']
         if s.name in STRFUNS:
             if isinstance(st, ast.Return) and isinstance(st.value, ast.Tuple) and '×' in s.ret:
                 comps = [c.strip() for c in s.ret.split('×')]
